@@ -4,11 +4,13 @@ use serde_json::Value;
 use std::collections::BTreeSet;
 
 pub mod c09;
+pub mod c11;
 pub mod c19;
 pub mod c20;
 pub mod c21;
 pub mod c22;
 pub mod c23;
+pub mod c25;
 pub mod c29;
 pub mod c30;
 pub mod c34;
@@ -77,6 +79,8 @@ pub fn registry() -> Vec<PropInfo> {
     let mut v = vec![];
     v.extend(hist::props());
     v.extend(c09::props());
+    v.extend(c11::props());
+    v.extend(c25::props());
     v.extend(structural::props());
     v.extend(c19::props());
     v.extend(c20::props());
